@@ -67,7 +67,8 @@ class Roles:
                     continue
                 if "build" in r and any(r["build"].id in self.P.local_targets(c) for c in fn.calls) and fn.id != "main":
                     r["run"] = fn
-                if fn.calls_to("warp::serve"):
+                if fn.kind != "closure" and any(self.P.fns[x].calls_to("warp::serve") for x in self.P.reachable_fns([fn.id])) \
+                        and fn.id != "main":
                     r["serve"] = fn
             # the async body of serve
             return r
